@@ -18,6 +18,7 @@ JOBS = {
     ],
     "C14": [
         {"cmd": "c14-engine", "race": True, "batches": {"quick": 12, "thorough": 12}, "timeout": {"quick": 600, "thorough": 2400}, "fatal_is_violation": "crash-only"},
+        {"cmd": "c14-update", "race": True, "timeout": {"quick": 400, "thorough": 1500}, "fatal_is_violation": "crash-only"},
     ],
     "C19": [
         {"cmd": "c19-codec", "race": False, "batches": {"quick": 4, "thorough": 16}, "timeout": {"quick": 300, "thorough": 1500}},
